@@ -451,20 +451,39 @@ def native_playback(unit: Unit, gen_dir: Path, harness_file: Path, tests: list, 
 # --------------------------------------------------------------------------- native reproducers (/verif/replay)
 
 
-def replay_bin(name: str, args: list, timeout=600):
-    """Build /verif/replay (real crates of /repo, real files) and run one reproducer binary.
-    Returns (reproduced: bool|None, detail)."""
-    tgt = CACHE / "replay-target"
-    env = dict(ENV)
-    env["CARGO_TARGET_DIR"] = str(tgt)
-    lockf = open(CACHE / "replay.lock", "w")
+def replay_bin(name: str, args: list, timeout=1800, crate: str = "replay"):
+    """Build a native reproducer crate (real crates of the repo under check, real files) and run one binary,
+    in the dev and the release profile. Returns (reproduced: bool|None, detail).
+
+    The crates under /verif/replay* name /repo in their manifests; when the tree under check is somewhere else
+    (VERIF_REPO, used to try seeded changes without touching /repo) a scratch copy with the path substituted is built."""
+    if str(REPO) == "/repo":
+        cdir, tgt, lockname = VERIF / crate, CACHE / f"{crate}-target", f"{crate}.lock"
+    else:
+        tag = hashlib.sha1(str(REPO).encode()).hexdigest()[:8]
+        cdir = SCRATCH / f"{crate}-{tag}"
+        tgt = CACHE / f"{crate}-target-{tag}"
+        lockname = f"{crate}-{tag}.lock"
+    CACHE.mkdir(parents=True, exist_ok=True)
+    lockf = open(CACHE / lockname, "w")
     fcntl.flock(lockf, fcntl.LOCK_EX)
     try:
-        shutil.copy(REPO / "Cargo.lock", VERIF / "replay" / "Cargo.lock")
+        if cdir != VERIF / crate:
+            if cdir.exists():
+                shutil.rmtree(cdir)
+            shutil.copytree(VERIF / crate, cdir)
+            for f in list(cdir.rglob("*.rs")) + list(cdir.rglob("Cargo.toml")):
+                t = f.read_text()
+                f.write_text(t.replace('"/repo/', f'"{REPO}/'))
+            if not tgt.exists() and (CACHE / f"{crate}-target").exists():
+                subprocess.run(["cp", "-al", str(CACHE / f"{crate}-target"), str(tgt)], check=False)
+        env = dict(ENV)
+        env["CARGO_TARGET_DIR"] = str(tgt)
+        shutil.copy(REPO / "Cargo.lock", cdir / "Cargo.lock")
         outs = []
         for profile in ("dev", "release"):
             cmd = ["cargo", "run", "--offline", "-q", "--bin", name] + (["--release"] if profile == "release" else []) + ["--"] + [str(a) for a in args]
-            rc, out, _ = run_shell(cmd, VERIF / "replay", timeout, env=env)
+            rc, out, _ = run_shell(cmd, cdir, timeout, env=env)
             last = (out.strip().splitlines() or [""])[-1]
             outs.append((profile, rc, last))
     finally:
